@@ -84,9 +84,24 @@ def _expected_scalar(ea, v):
         return float(v)
     if k in ('int', 'uvari', 'unorm', 'ushort', 'dim', 'status', 'encrypted'):
         return int(v)
-    if k == 'dtnum' and not (isinstance(v, dict) or isinstance(v, str)):
-        return float(v)
+    if k == 'dtnum' and not isinstance(v, dict) and not is_dt_text(v):
+        return float(v)         # a number, or a number given as text
     return v
+
+
+def is_dt_text(v):
+    """Text in one of the two documented date-time formats (anything else given as text to a date-time-or-number
+    attribute is a number in text form)."""
+    if not isinstance(v, str):
+        return False
+    from datetime import datetime as _dt
+    for fmt in ("%Y/%m/%d %H:%M:%S", "%Y.%m.%d %H:%M:%S"):
+        try:
+            _dt.strptime(v, fmt)
+            return True
+        except ValueError:
+            pass
+    return False
 
 
 def compare_attr(dlf, da, ea, opmap, where, alt_units=None, alt_values=None):
@@ -139,7 +154,7 @@ def compare_attr(dlf, da, ea, opmap, where, alt_units=None, alt_values=None):
                 out.append(('ref-wrong-target', lab, f"{where}: {lab}[{n}] = {dv} is not the object the user passed "
                                                      f"(op {ev['$ref']})"))
             continue
-        if k in ('dtime', 'dtnum') and (isinstance(ev, dict) or isinstance(ev, str)):
+        if k in ('dtime', 'dtnum') and (isinstance(ev, dict) or is_dt_text(ev)):
             if da.code != 21 or not isinstance(dv, dict):
                 out.append(('attr-code', lab, f"{where}: {lab} date-time written with code {da.code}"))
                 break
